@@ -702,6 +702,8 @@ def part_unit(ctx, shard):
         "get_cgs_equivalent": lambda u: u.get_cgs_equivalent(),
         "get_mks_equivalent": lambda u: u.get_mks_equivalent(),
         "as_coeff_unit": lambda u: u.as_coeff_unit(),
+        "simplify": lambda u: u.simplify(),  # documented to return a new unit
+        "simplify-then-str": lambda u: str(u.simplify()),
         "pow2": lambda u: u**2,
         "pow0.5": lambda u: u**0.5,
         "pow-1": lambda u: u**-1,
@@ -736,6 +738,9 @@ def part_unit(ctx, shard):
             ctx.decided(("unit1", oname, n1))
             if udig(u) != b:
                 ctx.violation(f"C18|unit|op={oname}|outcome={st}|mode=operand-changed", {"part": "unit", "u": n1, "op": oname}, b, udig(u))
+            elif udig(Unit(n1)) != b:
+                # the unit the registry hands out for this string is no longer what it was
+                ctx.violation(f"C18|unit|op={oname}|outcome={st}|mode=registry's-unit-for-the-string-changed", {"part": "unit", "u": n1, "op": oname}, b, udig(Unit(n1)))
         for n2, (oname, f) in itertools.product(names, ops2.items()):
             ctx.count("evaluations")
             v = Unit(n2)
